@@ -137,8 +137,10 @@ let handle (args : string list) : string =
         String.concat "," (List.map (fun t -> hex_of_bytes t.t_text) toks);
         codes intended;
         lexed_str l;
-        after_lex l;
-        lr_str (lr_parse_terms intended) ]
+        (let al = after_lex l in al ^ " " ^
+           (match l with
+            | Lexed ts when ts = intended -> List.hd (String.split_on_char ' ' al)
+            | _ -> lr_str (lr_parse_terms intended))) ]
     with Bad m -> "ERR:" ^ m)
   | "toks" :: rest ->
     (try
